@@ -2,6 +2,7 @@
 \* Parameters of MC_Lex (overwritten by the check): the lexeme vocabulary, instantiated from the shipped
 \* tables by predicate.  t = text, kd = kind, c = canonical value (list spelling / base id / ref name).
 MaxLex == 2
+Prefixes == <<"", "Apache-2.0-or-later AND ">>
 Seps   == <<" ">>
 Vocab == <<
   [t |-> "MIT", kd |-> "plainL", c |-> "MIT"],
